@@ -30,6 +30,17 @@ struct F0 {
 };
 struct F1 : F0 {};
 
+// what a process that has not run update yet has: an empty control table
+template<class Pol>
+auto forget_hash_state(int) -> decltype((void)Pol::control.clear()) {
+    Pol::control.clear();
+    Pol::vptrs.clear();
+}
+template<class Pol>
+void forget_hash_state(long) {
+}
+
+
 inline bool is_unknown_for(
     const std::optional<hx::error_type>& e, int cls) {
     using namespace yorel::yomm2;
@@ -146,7 +157,16 @@ inline void check_unknown(
                      (b.ok ? std::string("ok") : err_text(b.err))});
         return;
     }
-    // (d): only the dynamic class of an argument
+    // (d): only the dynamic class of an argument. The class was registered at
+    // an earlier update and has been withdrawn since (a library unloaded):
+    // whatever the earlier update left behind must not make it look known
+    {
+        hx::Built before;
+        run::note("update with the class still registered");
+        forget_hash_state<hx::P>(0); // as in a fresh process
+        hx::build(r, before);
+        COUNT("updates", 1);
+    }
     hx::Built b;
     hx::build(rs, b);
     COUNT("updates", 1);
